@@ -49,11 +49,12 @@ class SamplePdkMosParams:
 
     def __post_init__(self):
         """Value Checks"""
-        if self.w <= 0:
+        # `h.Scalar` parameters may be `h.Literal`s, which have no numeric value to check
+        if not isinstance(self.w, h.Literal) and self.w <= 0:
             raise ValueError(f"MosParams with invalid width {self.w}")
-        if self.l <= 0:
+        if not isinstance(self.l, h.Literal) and self.l <= 0:
             raise ValueError(f"MosParams with invalid length {self.l}")
-        if self.nf <= 0:
+        if not isinstance(self.nf, h.Literal) and self.nf <= 0:
             msg = f"MosParams with invalid number parallel fingers {self.nf}"
             raise ValueError(msg)
 
